@@ -198,43 +198,49 @@ func (i *Inserter) ingestTableFromBlocks(columns []string, pk []uint32) ([]byte,
 	tblIdx := i.sortBlocks()
 	i.tbl.RowsCount = i.rowsCount
 
-	// write and save table
+	// encode the table; it is stored last, after its index and profile, so that a
+	// table that is present in the store always has them (also after a crash)
 	buf := bytes.NewBuffer(nil)
 	_, err = i.tbl.WriteTo(buf)
 	if err != nil {
 		return nil, err
 	}
-	sum, err := objects.SaveTable(i.db, buf.Bytes())
-	if err != nil {
-		return nil, err
-	}
-	i.logger.Info("saved table", "sum", sum)
+	tblBytes := buf.Bytes()
+	sumArr := meow.Checksum(0, tblBytes)
+	sum := sumArr[:]
 
 	// write and save table index
-	buf.Reset()
+	idxBuf := bytes.NewBuffer(nil)
 	enc := objects.NewStrListEncoder(true)
-	_, err = objects.WriteBlockTo(enc, buf, tblIdx)
+	_, err = objects.WriteBlockTo(enc, idxBuf, tblIdx)
 	if err != nil {
 		return nil, err
 	}
-	err = objects.SaveTableIndex(i.db, sum, buf.Bytes())
+	err = objects.SaveTableIndex(i.db, sum, idxBuf.Bytes())
 	if err != nil {
 		return nil, err
 	}
 
 	// write and save table profile
-	buf.Reset()
+	idxBuf.Reset()
 	ts := i.sorter.TableSummary()
 	if ts != nil {
-		_, err = ts.WriteTo(buf)
+		_, err = ts.WriteTo(idxBuf)
 		if err != nil {
 			return nil, err
 		}
-		err = objects.SaveTableProfile(i.db, sum, buf.Bytes())
+		err = objects.SaveTableProfile(i.db, sum, idxBuf.Bytes())
 		if err != nil {
 			return nil, err
 		}
 	}
+
+	// save the table itself
+	sum, err = objects.SaveTable(i.db, tblBytes)
+	if err != nil {
+		return nil, err
+	}
+	i.logger.Info("saved table", "sum", sum)
 
 	return sum, nil
 }
